@@ -923,6 +923,62 @@ fn fwd_one(rng: &mut rand::rngs::StdRng, idx: usize, dir: &str) -> Vec<Value> {
     ev
 }
 
+// ---------------------------------------------------------------------------------------------
+// sampled histograms (histogram_sampling = true): sequential record / flush cycles through State::flush;
+// what each flush sent (values and the |@rate token) is checked against the accounting identities that hold
+// with sampling on: no more than the reservoir size, only values recorded in that cycle, all of them when the
+// cycle recorded no more than the reservoir size, rate = sent / recorded.
+
+fn sampled_one(rng: &mut rand::rngs::StdRng) -> Value {
+    let cap = [1usize, 2, 3, 4, 8][rng.random_range(0..5)];
+    let cfg = StateConfiguration {
+        agg_mode: AggregationMode::Conservative,
+        telemetry: false,
+        histogram_sampling: true,
+        histogram_reservoir_size: cap,
+        histograms_as_distributions: rng.random_range(0..2) == 0,
+        global_labels: vec![],
+        global_prefix: None,
+    };
+    let mut driver = Driver::new(cfg, 8192, false);
+    let rec = driver.recorder();
+    let md = Metadata::new("t", Level::INFO, None);
+    let h = rec.register_histogram(&Key::from_name("h1"), &md);
+    let cycles = rng.random_range(2..=5usize);
+    let mut out = vec![];
+    let mut next = 1i64;
+    for _ in 0..cycles {
+        let n = rng.random_range(0..=(2 * cap + 2));
+        let recorded: Vec<i64> = (0..n).map(|_| { next += 1; next }).collect();
+        for v in &recorded {
+            h.record(*v as f64);
+        }
+        let payloads = driver.flush_once();
+        let mut sent: Vec<i64> = vec![];
+        let mut rates: Vec<i64> = vec![];
+        let mut bad = 0;
+        for p in &payloads {
+            for line in String::from_utf8_lossy(p).lines() {
+                let parts: Vec<&str> = line.split('|').collect();
+                match parts[0].split_once(':') {
+                    Some(("h1", vs)) => {
+                        for v in vs.split(':') {
+                            match v.parse::<f64>() { Ok(x) => sent.push(x as i64), Err(_) => bad += 1 }
+                        }
+                        match parts.iter().find(|x| x.starts_with('@')).and_then(|r| r[1..].parse::<f64>().ok()) {
+                            Some(r) => rates.push((r * 1_000_000.0).round() as i64),
+                            None => rates.push(-1),
+                        }
+                    }
+                    _ => bad += 1,
+                }
+            }
+        }
+        out.push(json!({"recorded": recorded, "sent": sent, "rates": rates, "bad": bad}));
+    }
+    json!({"p": 0, "ev": "sampled", "a": [cap], "cycles": out})
+}
+
 fn main() {
     let args = vh::Args::parse();
     let mode = args.pos.get(0).map(|s| s.as_str()).unwrap_or("record").to_string();
@@ -1004,6 +1060,14 @@ fn main() {
                 for e in fwd_one(&mut rng, i, &dir) {
                     w.put(&e);
                 }
+            }
+            summary["runs"] = json!(runs);
+        }
+        "sampled" => {
+            let runs: usize = args.num("runs", 100);
+            for _ in 0..runs {
+                let e = sampled_one(&mut rng);
+                w.put(&e);
             }
             summary["runs"] = json!(runs);
         }
